@@ -72,6 +72,37 @@ def check(ctx: Ctx) -> None:
     abandonment_window_not_derived(ctx, "C06.R16")
 
 
+def hook_protects_write(ctx: Ctx, caller: FunctionInfo, w: Node) -> Tuple[bool, str]:
+    """The marker travels as a callback: the producer is called with `pre_write_hook=<...>._register_inflight`, and inside the
+    producer `pre_write_hook(<the file_path parameter itself>)` - skipped only when no hook was given - dominates the
+    construction of the writer (the same contract the manifest writers have)."""
+    hk = kwarg(w.ast, "pre_write_hook")
+    if hk is None or not (dotted(hk) or "").endswith("_register_inflight"):
+        return False, "no pre_write_hook=_register_inflight"
+    for t in ctx.eff.callees(caller, w):
+        tg = ctx.cfg(t)
+        pname = next((p.name for p in t.params if p.name == "file_path"), None)
+        writers = [n for n in tg.calls() if n.callee and n.callee.kind == "ctor" and n.callee.cls and n.callee.cls.name == "DataFileWriter"]
+        hooks = [n for n in tg.calls() if isinstance(n.ast, ast.Call) and isinstance(n.ast.func, ast.Name) and n.ast.func.id == "pre_write_hook"]
+        if pname is None or not writers or not hooks:
+            return False, f"{t.name} never calls the hook before creating the writer"
+        for h in hooks:
+            a0 = h.ast.args[0] if h.ast.args else None  # type: ignore[union-attr]
+            if not (isinstance(a0, ast.Name) and a0.id == pname and tg.entry in ctx.rd(t).reaching(h.id, pname) and len(ctx.rd(t).reaching(h.id, pname)) == 1):
+                return False, (f"{t.name} calls the hook with `{norm_text(a0) if a0 is not None else None}`, not with the table-relative "
+                               "file_path it was given: the marker's payload never matches what the collector lists")
+        none_false = null_edges(tg, "pre_write_hook")
+        for wr in writers:
+            wpath = find_path(tg, tg.entry, [wr.id], avoid=[h.id for h in hooks], labels=NORMAL, edge_ok=lambda s_, d_, l_: (s_, d_) not in none_false)
+            if wpath is not None:
+                return False, f"a path of {t.name} creates the writer without having called the hook"
+        for h in hooks:
+            esc, _ = ctx.eff.propagate(t, {"Exception"}, h.frames, record=False)
+            if not esc:
+                return False, "a failing hook is swallowed: the file would be written unprotected"
+    return True, "pre_write_hook=_register_inflight; the producer calls it with its file_path before creating the writer"
+
+
 def data_writes_protected(ctx: Ctx, rid: str) -> None:
     ctx.rule(rid, "every data-file production site is protected like append_data: each call (from outside data_operations) of a "
              "function that constructs a DataFileWriter is dominated by _register_inflight(<the same path>), the registration "
@@ -102,6 +133,8 @@ def data_writes_protected(ctx: Ctx, rid: str) -> None:
             if not mine:
                 why = ("no _register_inflight call for this path dominates the write: a collection running before the commit "
                        "deletes the file (a marker written by hand is not what the collector's _marker_target reads)")
+                if kwarg(w.ast, "pre_write_hook") is not None:
+                    ok, why = hook_protects_write(ctx, f, w)
             for r in mine:
                 esc, _ = ctx.eff.propagate(f, {"Exception"}, r.frames, record=False)
                 if not esc:
@@ -132,6 +165,8 @@ def r1(ctx: Ctx, rid: str) -> None:
     for w in ctx.calls(ad, name="write_data_file"):
         pv = names_in(kwarg(w.ast, "file_path", 0))
         ok = any(r.id in dom[w.id] and pv & names_in(path_arg(r)) for r in regs)
+        if not ok and kwarg(w.ast, "pre_write_hook") is not None:
+            ok = hook_protects_write(ctx, ad, w)[0]
         ctx.ob(rid, ad, "append_data: marker registered before the data file is written", w, ok,
                "_register_inflight(file_path) dominates write_data_file(file_path=file_path)")
     for r in regs:
